@@ -182,6 +182,22 @@ def ladder(layers, width=2, twist=True):
     return canon(edges)
 
 
+def staircase(k, side_first=True, fan=1):
+    """a pipeline s0 -> s1 -> ... -> sk in which every stage s(i+1) has `fan` extra sources r(i,j); with the side edges
+    listed before the spine edge the blocks of the default positioner form a diagonal staircase that needs one more
+    placement round per stage"""
+    edges = []
+    nid = k + 1
+    for i in range(k):
+        side = []
+        for j in range(fan):
+            side.append((nid, i + 1))
+            nid += 1
+        spine = [(i, i + 1)]
+        edges += (side + spine) if side_first else (spine + side)
+    return canon(edges)
+
+
 def bipartite(a, b):
     return canon([(i, a + j) for i in range(a) for j in range(b)])
 
